@@ -171,7 +171,23 @@ def run(ctx):
     n = 120 if ctx.quick else 2000
     # corpus: the repaired defect F4 (a link to a directory became an empty directory)
     c0 = gen(rng, 'parfile'); c0.entries = [e for e in c0.entries if e['k'] != 'l']; c0.l(b'/W/S/ld', b'real'); c0.kinds = ['dir-rel']
-    scs = [c0] + [gen(rng, ['parfile', 'parblock'][i % 2]) for i in range(n)] + [gen_operands(rng, ['parfile', 'parblock'][i % 2]) for i in range(16 if ctx.quick else 200)] + [gen_into_dest(rng, ['parfile', 'parblock'][i % 2]) for i in range(6 if ctx.quick else 40)] + [gen_gitignore_targets(rng, ['parfile', 'parblock'][i % 2]) for i in range(4 if ctx.quick else 24)]
+    corpus = []
+    for driver in ('parfile', 'parblock'):
+        # corpus: several links with the SAME relative text in different directories — each means the file next to it
+        c1 = gen(rng, driver); c1.entries = [e for e in c1.entries if e['k'] != 'l']; c1.kinds = ['same-text']
+        for dn, txt in ((b'd1', b'ONE'), (b'd2', b'TWO-TWO'), (b'd2/inner', b'THREE-THREE-THREE')):
+            c1.d(b'/W/S/' + dn).f(b'/W/S/' + dn + b'/data', text=txt).l(b'/W/S/' + dn + b'/lnk', b'data').l(b'/W/S/' + dn + b'/up', b'../plain' if dn != b'd2/inner' else b'../../plain')
+        corpus.append(c1)
+        # corpus: a tree 45 levels deep under -L (depth of the tree is not length of a link chain), reached through a link as well
+        c2 = gen(rng, driver); c2.entries = [e for e in c2.entries if e['k'] != 'l']; c2.kinds = ['deep-tree']
+        pth = b'/W/S/real'
+        for lv in range(45):
+            pth += b'/v'; c2.d(pth)
+            if lv in (38, 39, 40, 41, 44):
+                c2.f(pth + b'/leaf%d' % lv, text=b'leaf %d' % lv)
+        c2.l(b'/W/S/ld', b'real')
+        corpus.append(c2)
+    scs = [c0] + corpus + [gen(rng, ['parfile', 'parblock'][i % 2]) for i in range(n)] + [gen_operands(rng, ['parfile', 'parblock'][i % 2]) for i in range(16 if ctx.quick else 200)] + [gen_into_dest(rng, ['parfile', 'parblock'][i % 2]) for i in range(6 if ctx.quick else 40)] + [gen_gitignore_targets(rng, ['parfile', 'parblock'][i % 2]) for i in range(4 if ctx.quick else 24)]
     runs = []
     with core.Scratch('c13') as base:
         for i, sc in enumerate(scs):
@@ -225,9 +241,11 @@ def run(ctx):
                     if r and r[0] == 'f' and after.get(dp) != f'f:{r[1]}':
                         bad = f'{dp!r} should be a regular file with the bytes {sp!r} points to (found {after.get(dp)})'
             # every source link became what it points to
+            budget = [4000]
             def expect(srcp, dstp, depth=0):
                 nonlocal bad
-                if bad or depth > 12: return
+                if bad or depth > 64 or budget[0] <= 0: return
+                budget[0] -= 1
                 r = resolve(ents, srcp)
                 if r is None: return
                 if r[0] == 'f':
